@@ -120,7 +120,7 @@ class Serializer:
             return default
         if not isinstance(value, bytes):
             return value
-        if value.isdigit():
+        if value.isdigit() or (value[:1] == b"-" and value[1:].isdigit()):
             return int(value)
         try:
             value = self._signer.check_sign(key, value)
